@@ -959,6 +959,10 @@ class ReportPriorityF(Format):
             body += bytes(h) + t
         return bytes(be(len(body), 4)) + body
 
+    def expect(self, v):
+        return {"priority_descriptors": [{"current_priority": d["current_priority"], "rtpi": d["rtpi"], "adlen": len(encode_transport_id(d["_tid"])),
+                                          "transport_id": encode_transport_id(d["_tid"])} for d in v["priority_descriptors"]]}
+
     def length_sites(self, v, b):
         sites = [(0, 4)]
         off = 4
